@@ -874,11 +874,11 @@ impl Property for C18 {
     }
     fn workloads(&self, tier: Tier) -> Vec<(String, u64)> {
         vec![
-            ("document".into(), tier.pick(1500, 100_000)),
-            ("typed".into(), tier.pick(500, 30_000)),
-            ("reprint".into(), tier.pick(68, 68 * 20)),
-            ("kyg".into(), tier.pick(300, 20_000)),
-            ("tbl".into(), tier.pick(300, 20_000)),
+            ("document".into(), tier.pick(4500, 100_000)),
+            ("typed".into(), tier.pick(1500, 30_000)),
+            ("reprint".into(), tier.pick(136, 68 * 20)),
+            ("kyg".into(), tier.pick(900, 20_000)),
+            ("tbl".into(), tier.pick(900, 20_000)),
         ]
     }
     fn required(&self, _tier: Tier) -> Vec<(String, u64)> {
